@@ -28,6 +28,7 @@ PROBES = {"C19": ["crash_between_train_and_test_prediction", "crash_at_fit",
                   "overwrite_run", "rerun_same_process", "presplit_cv",
                   "clock_backwards_seen", "kill_not_exception",
                   "options_changed_between_runs", "ram_store", "features_reordered", "benchmark_extended_later",
+                  "target_column_not_last",
                   "presplit_labels_interleaved"]}
 FAULT_KINDS = {"C19": ["peer_raises@k", "crash_restart", "rerun_same_process",
                        "clock_jump_fwd", "clock_jump_back"]}
@@ -66,7 +67,12 @@ def generate(prop, rng, tier):
             "len": rng.randint(3, 6),
             "source": rng.choice(["uea", "uea", "ram_presplit"]) if cvt.startswith("presplit") else rng.choice(["ram", "ram", "uea"]) if kind == "tsc" else "ram",
             "n_train": rng.randint(2, n - 2),
+            "target_pos": rng.choice(["last", "last", "first", "middle"]),
             "classes": rng.choice([2, 3])})
+    if n_ds >= 2 and rng.random() < 0.5:
+        for ds in datasets[1:]:
+            ds["n"] = datasets[0]["n"]   # datasets of equal size (but different content / split)
+            ds["n_train"] = rng.randint(2, ds["n"] - 2)
     if cvt == "kfold":
         cv = {"type": "kfold", "k": rng.choice([2, 3, 3, 4] if big else [2, 3]),
               "shuffle": rng.random() < 0.5, "rs": rng.randint(0, 99)}
@@ -163,11 +169,16 @@ def _make_data(scen):
     return out
 
 
-def _rows_to_frame(rows, index=None):
+def _rows_to_frame(rows, index=None, target_pos="last"):
     ncol = len(rows[0][0])
     data = {"dim_%d" % c: [pd.Series(r[0][c]) for r in rows] for c in range(ncol)}
     df = pd.DataFrame(data)
     df["target"] = [r[1] for r in rows]
+    if target_pos == "first":
+        df = df[["target"] + [c for c in df.columns if c != "target"]]
+    elif target_pos == "middle" and ncol >= 2:
+        cols = [c for c in df.columns if c != "target"]
+        df = df[cols[:1] + ["target"] + cols[1:]]
     if index is not None:
         df.index = index
     return df
@@ -265,9 +276,12 @@ class World:
                     lab[-1] = lab[-2] = "train"
                 if lab.count("test") < 2:
                     lab[0] = lab[1] = "test"
-                out.append(RAMDataset(_rows_to_frame(rows, index=lab), name=ds["name"]))
+                out.append(RAMDataset(_rows_to_frame(rows, index=lab, target_pos=ds.get("target_pos", "last")),
+                                      name=ds["name"]))
             else:
-                out.append(RAMDataset(_rows_to_frame(self.raw[ds["name"]]), name=ds["name"]))
+                out.append(RAMDataset(_rows_to_frame(self.raw[ds["name"]],
+                                                     target_pos=ds.get("target_pos", "last")),
+                                      name=ds["name"]))
         return out
 
     def make_tasks(self):
@@ -863,6 +877,8 @@ def execute(prop, scen):
         res.real.add("benchmarking.data.%s" % ("UEADataset" if ds["source"] == "uea" else "RAMDataset"))
         if ds["source"] == "ram_presplit":
             res.probe("presplit_labels_interleaved")
+        if ds["source"] != "uea" and ds.get("target_pos", "last") != "last":
+            res.probe("target_column_not_last")
     res.real.add({"kfold": "sklearn.KFold", "single": "series_as_features.model_selection.SingleSplit",
                   "presplit": "series_as_features.model_selection.PresplitFilesCV"}[scen["cv"]["type"]])
     res.stub.update(["SpyClassifier" if scen["kind"] == "tsc" else "SpyRegressor",
